@@ -80,6 +80,13 @@ class Closure:
         return f"Closure({getattr(self.node, 'name', 'lambda')})"
 
 
+class OpenStar:
+    """`*seq` at the end of a call's positional arguments where `seq` is an opaque sequence of unknown length"""
+
+    def __init__(self, seq):
+        self.seq = seq
+
+
 class Getter:
     """operator.attrgetter(...) / operator.itemgetter(...) with constant keys"""
 
@@ -129,6 +136,8 @@ class Facts:
         self.pin = {}                       # symbol -> constant it is taken to be when a comparison is decided (a world: the first send, j = 1)
         self.lost = []                      # calls whose effects on the arrays could not be followed: the evaluation must not be used
         self.crashes = []                   # (message, statement): a name read on the path taken that nothing has bound (NameError / UnboundLocalError)
+        self.carry_inits = {}               # carried slot -> its value before the receiving loop
+        self.assumed_arrays = set()         # carried slots taken to hold an array because their initial value is one (to be checked on what sends leave)
 
     def is_generic(self, name):
         return name in self.generic or (self.generic_prefix is not None and name.startswith(self.generic_prefix))
@@ -332,6 +341,15 @@ class ModConsts:
         return None
 
 
+# partitions of the equations that never share a row (rf / non-rf; kdof is a subset of nonrf; rb and el split kdof / nonrf)
+_DISJOINT = [{"self.rf", "self.kdof"}, {"self.rf", "self.nonrf"}, {"self.rf", "self.rb"}, {"self.rf", "self.el"}, {"self.rb", "self.el"},
+             {"self.rb", "self.kdof"}]
+_INPLACE_METHODS = frozenset(("fill", "sort", "partition", "resize", "itemset", "put", "setfield", "byteswap", "__setitem__", "__iadd__", "__isub__",
+                             "__imul__", "__itruediv__", "__imatmul__", "setflags"))
+_OPERATOR_BIN = {"operator.mul": ast.Mult, "operator.matmul": ast.Mult, "operator.add": ast.Add, "operator.sub": ast.Sub, "operator.truediv": ast.Div,
+                 "operator.__mul__": ast.Mult, "operator.__matmul__": ast.Mult, "operator.__add__": ast.Add, "operator.__sub__": ast.Sub}
+
+
 def getter_of(node):
     """operator.attrgetter('a', 'b') / operator.itemgetter(0, 2) with constant keys -> Getter, else None"""
     d = dotted(node.func) or ""
@@ -429,6 +447,7 @@ class GenEval(AutoEvaluator):
         self.heap_carried = heap_carried                        # heap slots that start the iteration as carry symbols (None: all that exist at loop entry)
         self.heap_entry = []                                    # heap slots that existed at loop entry
         self.loop_ev = None                                     # the evaluator that ran the generator loop (self, or a `yield from` sub-generator)
+        self.views = {}
         self.skipped_handlers = []                              # `except` handlers not followed
         self.facts = facts or Facts()
         self.cond = self._cond
@@ -842,7 +861,17 @@ class GenEval(AutoEvaluator):
             col = c
         else:
             raise Unsupported("more than two indices")
-        return self.mkref(root, rows, col)
+        if self.iter_stores:
+            fw = self._forward(root, rows, col)
+            if fw is not None:
+                if is_unknown(fw):
+                    raise Unsupported(fw.why)
+                fw = self._copy_of(fw)
+                self._note_view(fw, root, rows, col)
+                return fw
+        r = self.mkref(root, rows, col)
+        self._note_view(r, root, rows, col)
+        return r
 
     def mkref(self, root, rows, col):
         if self.refhook is not None:
@@ -942,6 +971,7 @@ class GenEval(AutoEvaluator):
                 c = self.consts.get(self.rel, f.id)
                 if is_callable_value(c):
                     return c
+                return self._module_alias(f.id)
             return None
         if isinstance(f, ast.Attribute):
             d = self.canon_dotted(f)
@@ -949,6 +979,30 @@ class GenEval(AutoEvaluator):
                 return self.env[d]
             return None
         return self.ev(f)
+
+    def _module_alias(self, nm):
+        """a module-level name bound once to a library function (`_mm = np.matmul`): the symbol of that function; a module-level variable
+        bound to anything else that is not a def / class / import: Unknown (calling it cannot be followed)"""
+        m = getattr(self.fn, "_vmod", None)
+        if m is None:
+            return None
+        hits = []
+        for st in m.tree.body:
+            if isinstance(st, (ast.Assign, ast.AnnAssign)):
+                tg = st.targets if isinstance(st, ast.Assign) else [st.target]
+                if any(isinstance(t, ast.Name) and t.id == nm for t in tg):
+                    hits.append(st.value)
+            elif isinstance(st, (ast.FunctionDef, ast.ClassDef)) and st.name == nm:
+                return None
+        if not hits:
+            return None
+        if len(hits) == 1 and hits[0] is not None:
+            d = dotted(hits[0])
+            if d and "." in d and d.split(".")[0] in self._lib_modules():
+                return F.sym(d)
+            if isinstance(hits[0], ast.Call) and (dotted(hits[0].func) or "").split(".")[-1] in ("njit", "jit", "vectorize"):
+                return None                 # `f = numba.njit(...)(f)`: the function itself
+        return Unknown(f"module-level name `{nm}` is not a function the engine can follow")
 
     def _apply_value(self, fv, node, argvals=None):
         """call of a function value (closure, getter, partial); NotImplemented when the value is not one.  A call that cannot be followed
@@ -1032,7 +1086,35 @@ class GenEval(AutoEvaluator):
                 return Unknown(str(e))
         return Unknown(f"item {key!r}")
 
+    def _heap_method(self, node):
+        """(object, FunctionDef) when the call is a method call on an object of a small class of the module created here"""
+        if not isinstance(node.func, ast.Attribute):
+            return None
+        try:
+            bv = self.ev(node.func.value)
+        except Unsupported:
+            return None
+        s_ = symname(bv)
+        cdef = self.heap.get("class:" + s_) if s_ is not None and s_.startswith(HEAP) else None
+        if cdef is None:
+            return None
+        if f"{s_}.{node.func.attr}" in self.env:
+            return None                     # an instance attribute that holds a function: called as a value
+        for x in cdef.body:
+            if isinstance(x, ast.FunctionDef) and x.name == node.func.attr:
+                if any((dotted(d) or "").split(".")[-1] in ("staticmethod", "classmethod", "property") for d in x.decorator_list):
+                    return s_, None
+                return s_, x
+        return s_, None
+
     def _call(self, node):
+        hm = self._heap_method(node)
+        if hm is not None:
+            obj, mfn = hm
+            r = self._inline(node, f"{obj}.{node.func.attr}", fn=mfn, selfobj=obj) if mfn is not None and self.inline_depth < 5 else NotImplemented
+            if r is NotImplemented:
+                return self._lost(f"`{ast.unparse(node)[:60]}`: a method of an object created here that cannot be followed")
+            return r
         name = self._callee_name(node)
         fv = self._callee_value(node)
         if fv is not None:
@@ -1042,6 +1124,11 @@ class GenEval(AutoEvaluator):
             s_ = symname(fv)
             if s_ is not None and s_ in self.inline:
                 name = s_          # a local that names a function / bound method defined elsewhere: `step = _cdf_step`, `f = self._helper`
+            elif s_ is not None and "." in s_ and s_.split(".")[0] in self._lib_modules() and isinstance(node.func, ast.Name):
+                name = s_          # a library function under another name: `times = operator.mul if unc else operator.matmul`, `mm = np.matmul`
+            elif isinstance(node.func, ast.Name):
+                # a name bound here to something that is not a function the engine knows: what the call computes (and changes) is not known
+                return self._lost(f"`{ast.unparse(node)[:60]}`: `{node.func.id}` is bound to a value the engine cannot call ({fv!r})"[:200])
         if name is not None and name in self.inline and self.inline_depth < 5 and self.inline[name] is not self.fn:
             r = self._inline(node, name)
             if r is not NotImplemented:
@@ -1201,6 +1288,14 @@ class GenEval(AutoEvaluator):
 
         if name in ("np.eye", "np.identity", "numpy.eye", "numpy.identity"):
             return F.const(1)
+        if name in _OPERATOR_BIN and len(args) == 2 and not kw:
+            return self._arith(_OPERATOR_BIN[name](), self.ev(args[0]), self.ev(args[1]))
+        if name in ("operator.neg", "np.negative") and len(args) == 1 and not kw:
+            return self._arith(ast.Sub(), F.const(0), self.ev(args[0]))
+        if name in ("operator.pos", "np.positive") and len(args) == 1 and not kw:
+            return self.ev(args[0])
+        if name is not None and name.startswith("operator.i") and name[9:] in ("add", "sub", "mul", "matmul", "truediv", "concat", "pow"):
+            return self._lost(f"in-place operator function {name}")
         if name in ("la.lu_solve", "scipy.linalg.lu_solve", "lu_solve", "linalg.lu_solve") and len(args) >= 2:
             return self._lusolve(node, kw)
         if name in ("np.dot", "np.matmul") and len(args) == 2 and "out" not in kw:
@@ -1210,13 +1305,20 @@ class GenEval(AutoEvaluator):
             return self._T(self.ev(args[0]))
         if name in ("np.ravel", "np.asarray", "np.array", "np.atleast_1d", "np.atleast_2d", "np.ascontiguousarray", "np.asfortranarray",
                     "np.squeeze", "np.real", "float", "complex", "int", "operator.index") and len(args) >= 1:
-            return self.ev(args[0])
+            v = self.ev(args[0])
+            return self._copy_of(v) if name in ("np.array", "float", "complex", "int") else v
         if name in ("np.add", "np.subtract", "np.multiply", "np.divide") and len(args) >= 2:
             op = {"np.add": ast.Add(), "np.subtract": ast.Sub(), "np.multiply": ast.Mult(), "np.divide": ast.Div()}[name]
             v = self._arith(op, self.ev(args[0]), self.ev(args[1]))
             out = kw.get("out") or (args[2] if len(args) > 2 else None)
             if out is not None:
+                cur = self.env.get(out.id) if isinstance(out, ast.Name) else None
+                vt = self._view_triple(cur)
                 self._assign(out, v, node, aug=True)
+                if vt is not None:
+                    self._store_view(vt, v, None, self.cur_stmt if self.cur_stmt is not None else node, f"{out.id} (out=)")
+                if isinstance(cur, F.Rat) and not cur.is_const() and cur is not v:
+                    self._update_object(cur, v)          # `out=` writes into the array itself: every other name of it follows
             return v
         if name == "np.fill_diagonal" and len(args) == 2:
             b, w = self.ev(args[0]), self.ev(args[1])
@@ -1225,17 +1327,27 @@ class GenEval(AutoEvaluator):
             return NONE
         if name in ("np.copy",) and len(args) >= 1:
             v = self.ev(args[0])
-            return self._fresh("copy", v) if self.fresh_arrays is True else v
+            return self._fresh("copy", v) if self.fresh_arrays is True else self._copy_of(v)
         if name in ZERO_CTORS or name in ("np.ones", "np.ones_like"):
             if self.fresh_arrays:
                 return self._fresh("zeros" if name in ZERO_CTORS else "ones", None)
             return F.const(0) if name in ZERO_CTORS else F.const(1)
+        if meth in _INPLACE_METHODS and isinstance(node.func, ast.Attribute):
+            bv = self.ev(node.func.value)
+            if isinstance(bv, F.Rat) and not is_unknown(bv) and not (bv.is_const() and not self.fresh_arrays):
+                if meth == "fill" and len(args) == 1 and not kw and isinstance(node.func.value, ast.Name) and not (self.tracked is not None and self._is_view(bv)) \
+                        and symname(bv) not in self.fresh:
+                    self._update_object(bv, self.ev(args[0]))
+                    return NONE
+                return self._lost(f"`{ast.unparse(node)[:60]}`: a method that changes an array in place")
         if meth is not None:
             if meth in ("ravel", "astype", "squeeze", "flatten", "reshape", "view", "conj_none"):
                 return self.ev(node.func.value)
             if meth == "copy":
                 v = self.ev(node.func.value)
-                return self._fresh("copy", v) if self.fresh_arrays is True else v
+                return self._fresh("copy", v) if self.fresh_arrays is True else self._copy_of(v)
+            if meth in ("astype", "flatten"):
+                return self._copy_of(self.ev(node.func.value))
             if meth == "transpose" and not args:
                 return self._T(self.ev(node.func.value))
             if meth == "dot" and len(args) == 1:
@@ -1246,6 +1358,64 @@ class GenEval(AutoEvaluator):
         return self._opaque_call(node, name, r)
 
     tracked = None          # predicate: root value -> True when it is one of the arrays the rule watches (None: no such arrays)
+    views = None            # {id(value object): (value object, root, rows, col)}: values obtained by indexing a watched array (a column bound to a local)
+
+    @staticmethod
+    def _copy_of(v):
+        """an equal value that is another object (a copy of an array is not a view of it, and not the same object as the original)"""
+        return F.Rat(v.n, v.d) if isinstance(v, F.Rat) and not is_unknown(v) and not v.is_const() else v
+
+    def _note_view(self, v, root, rows, col):
+        if self.views is not None and self.tracked is not None and isinstance(v, F.Rat) and isinstance(root, F.Rat) and self.tracked(root):
+            self.views[id(v)] = (v, root, rows, col)
+
+    def _view_triple(self, v):
+        """(root, rows, col) when the value is a view of a watched array, else None"""
+        if self.tracked is None or not isinstance(v, F.Rat) or is_unknown(v):
+            return None
+        if self.views is not None and id(v) in self.views and self.views[id(v)][0] is v:
+            return self.views[id(v)][1:]
+        u = sem.unfn(v)
+        if u is not None and u[0] == "ref" and isinstance(u[1][0], F.Rat) and self.tracked(u[1][0]):
+            return tuple(u[1])
+        return None
+
+    def _store_view(self, triple, new, cur, st, text):
+        """an in-place update of a view of a watched array through a local name (`col = V[:, i]; col += x`, `np.add(.., out=col)`) is a store"""
+        self.seq += 1
+        if self.iter_stores is not None:
+            self.iter_stores.append((triple[0], triple[1], triple[2], new))
+        self.gcells.append(dict(root=triple[0], rows=triple[1], col=triple[2], value=new, cur=cur, node=st, in_loop=self.in_loop, seq=self.seq, text=text))
+        if isinstance(new, F.Rat) and not is_unknown(new):
+            self.views[id(new)] = (new,) + tuple(triple)
+
+    iter_stores = None      # [(root, rows, col, value)] stored so far by the iteration of the receiving loop (shared with followed helpers); None: outside
+
+    def _forward(self, root, rows, col):
+        """the value this iteration has already stored into the cell (root, rows, col), None when it has not touched it; Unknown when an
+        earlier store of the iteration may overlap the cell in a way the engine cannot tell"""
+        if not self.iter_stores or not isinstance(col, F.Rat) or not isinstance(rows, F.Rat) or not isinstance(root, F.Rat):
+            return None
+        for r0, rw0, c0, v0 in reversed(self.iter_stores):
+            if r0 is None:
+                return Unknown("a store of this iteration the engine cannot place may overlap the cell that is read")
+            if not r0.equals(root):
+                continue
+            if not isinstance(c0, F.Rat) or not isinstance(rw0, F.Rat):
+                return Unknown("a store of this iteration the engine cannot place may overlap the cell that is read")
+            same_col = c0.equals(col) or (is_all(c0) and is_all(col))
+            if not same_col:
+                dc = c0 - col
+                if is_all(c0) or is_all(col) or not dc.is_const():
+                    return Unknown("a store of this iteration into a column the engine cannot tell from the one that is read")
+                continue                                     # another column
+            if rw0.equals(rows) or (is_all(rw0) and is_all(rows)):
+                return v0 if isinstance(v0, F.Rat) else Unknown("the value stored earlier in this iteration is not a formula")
+            if symname(rw0) is not None and symname(rows) is not None and not is_all(rw0) and not is_all(rows) \
+                    and {symname(rw0), symname(rows)} in _DISJOINT:
+                continue                                     # another partition
+            return Unknown("a store of this iteration into rows that may overlap the cell that is read")
+        return None
     opaque_ok = frozenset()   # functions the rule deliberately does not follow
 
     def _own_code(self, name):
@@ -1256,6 +1426,22 @@ class GenEval(AutoEvaluator):
         if "." in name:
             return name.split(".")[0] in self._own_modules()
         return not hasattr(builtins, name)
+
+    def _lib_modules(self):
+        """local names bound to library modules by the module's imports (`import numpy as np`, `import operator`, `import scipy.linalg as la`)"""
+        m = getattr(self.fn, "_vmod", None)
+        if m is None:
+            return ()
+        g = getattr(m, "_c08_libmods", None)
+        if g is None:
+            g = set()
+            for st in ast.walk(m.tree):
+                if isinstance(st, ast.Import):
+                    for al in st.names:
+                        if al.name.split(".")[0] != "pyyeti":
+                            g.add((al.asname or al.name).split(".")[0])
+            m._c08_libmods = g
+        return g
 
     def _own_modules(self):
         """local names bound to modules of this package (`from pyyeti import ytools`, `from . import _utilities as ut`)"""
@@ -1305,6 +1491,7 @@ class GenEval(AutoEvaluator):
         init = next((x for x in cdef.body if isinstance(x, ast.FunctionDef) and x.name == "__init__"), None)
         is_dc = any((dotted(d) or dotted(getattr(d, "func", None)) or "").split(".")[-1] == "dataclass" for d in cdef.decorator_list)
         obj = self._new_obj("namespace")
+        self.heap["class:" + obj] = cdef
         if init is not None:
             env = self._bind(init, [F.sym(obj)] + list(av[0]), av[1], False, self)
             if env is None or _has_yield(init):
@@ -1416,12 +1603,18 @@ class GenEval(AutoEvaluator):
         return F.fn("call:" + name, *args)
 
     # ---- following a helper on its argument values
-    def _argvals(self, node):
-        """([positional values], {keyword: value}) of a call; `*t` with a tuple value and `**d` with a dict built here are expanded"""
+    def _argvals(self, node, open_star=False):
+        """([positional values], {keyword: value}) of a call; `*t` with a tuple value and `**d` with a dict built here are expanded.
+        open_star: a trailing `*seq` whose value is an opaque sequence (what a method that is not followed returns) is kept as OpenStar(seq):
+        `_bind` gives the callee's remaining positional parameters its items (a call that does not crash supplies exactly those)"""
         pos, kw = [], {}
-        for a in node.args:
+        for k_, a in enumerate(node.args):
             if isinstance(a, ast.Starred):
                 v = self.ev(a.value)
+                if open_star and k_ == len(node.args) - 1 and isinstance(v, F.Rat) and not is_unknown(v) and sem.unfn(v) is not None \
+                        and (sem.unfn(v)[0].startswith("call:") or sem.unfn(v)[0] == "item"):
+                    pos.append(OpenStar(v))
+                    continue
                 if not isinstance(v, tuple):
                     return None
                 pos.extend(v)
@@ -1452,15 +1645,34 @@ class GenEval(AutoEvaluator):
             params = params[1:]
         env = {}
         pos = list(pos)
-        if len(pos) > len(params):
+        if pos and isinstance(pos[-1], OpenStar):
+            seq, pos = pos[-1].seq, pos[:-1]
+            rest = params[len(pos):]
+            ndef = len(a.defaults or [])
+            if len(pos) > len(params) or any(p_ in kw for p_ in rest):
+                return None
+            if a.vararg:
+                if rest:
+                    return None                     # how many items go to the named parameters is not known
+                env[a.vararg.arg] = seq             # all of it is the *args tuple
+                for p_, x in zip(params, pos):
+                    env[p_] = x
+                pos = None
+            elif ndef and set(params[len(params) - ndef:]) & set(rest):
+                return None                         # optional parameters among the remaining ones: the length of the sequence decides
+            else:
+                pos = pos + [F.fn("item", seq, F.const(k)) for k in range(len(rest))]
+        if pos is None:
+            pass
+        elif len(pos) > len(params):
             if not a.vararg:
                 return None
             env[a.vararg.arg] = tuple(pos[len(params):])
             pos = pos[:len(params)]
         elif a.vararg:
             env[a.vararg.arg] = ()
-        for p_, x in zip(params, pos):
-            env[p_] = x
+        for p_, x in zip(params, pos or []):
+            env.setdefault(p_, x)
         kwonly = [x.arg for x in a.kwonlyargs]
         extra = []
         for k, v in kw.items():
@@ -1497,6 +1709,8 @@ class GenEval(AutoEvaluator):
         sub.in_loop = False
         sub.carry_over = self.carry_over
         sub.tracked, sub.opaque_ok = self.tracked, self.opaque_ok
+        sub.iter_stores = self.iter_stores
+        sub.views = self.views
         return sub
 
     def _merge(self, sub, keep_loop_flags=False):
@@ -1521,20 +1735,23 @@ class GenEval(AutoEvaluator):
         v = sub.returns[-1][0]
         return NONE if v is None else v
 
-    def _inline(self, node, name, argvals=None, gen=False):
-        """follow a function / method defined elsewhere on its argument values; gen: a sub-generator entered through `yield from`"""
-        fn = self.inline[name]
+    def _inline(self, node, name, argvals=None, gen=False, fn=None, selfobj=None):
+        """follow a function / method defined elsewhere on its argument values; gen: a sub-generator entered through `yield from`;
+        fn + selfobj: a method of a small class of the module called on an object created here (the object is the first argument)"""
+        fn = fn if fn is not None else self.inline[name]
         if _has_yield(fn) != gen:
             return NotImplemented
         params = [x.arg for x in fn.args.posonlyargs + fn.args.args]
-        method = bool(params) and params[0] in ("self", "cls") and "." in name
+        method = bool(params) and params[0] in ("self", "cls") and "." in name and selfobj is None
         unbound = False
-        if not method and "." in name and bool(params) and params[0] in ("self", "cls"):
+        if not method and "." in name and bool(params) and params[0] in ("self", "cls") and selfobj is None:
             unbound = True                      # Class.method(self, ...): the receiver is the first argument
-        av = argvals if argvals is not None else self._argvals(node)
+        av = argvals if argvals is not None else self._argvals(node, open_star=True)
         if av is None:
             return NotImplemented
         pos, kw = av
+        if selfobj is not None:
+            pos = [F.sym(selfobj)] + list(pos)
         recv = name.rsplit(".", 1)[0] if method else None
         if unbound:
             if not pos or symname(pos[0]) is None:
@@ -1552,9 +1769,22 @@ class GenEval(AutoEvaluator):
         for k, v in self.env.items():
             if k.startswith(HEAP):
                 env[k] = v
+        # attribute slots of named objects (`self.pc.F`, `self.order`) belong to the objects, not to the caller's frame: a helper that is
+        # handed the object (`_coefs(pc)` with pc = self.pc) reads the same slots.  (Keys are canonical: rooted at the object's symbol.)
+        shared = {}
+        # (the callee reaches a slot `r.attr` through its own name `r` only when `r` is not bound to another object there: a parameter bound to an
+        # object - `_step(self, ...)` as a module-level function, `self` of a small class - is replaced by that object's symbol in every key)
+        callee_names = {p_ for p_ in env if "." not in p_ and symname(env[p_]) is None} \
+            | {n.id for n in walk_no_nested(fn) if isinstance(n, ast.Name) and isinstance(n.ctx, (ast.Store, ast.Del))}
+        for k, v in self.env.items():
+            if "." in k and not k.startswith(HEAP) and k not in env:
+                root = k.split(".")[0].split("[")[0]
+                if root not in callee_names and not (method and (root == "self" or k.startswith(recv + "."))):
+                    shared[k] = env[k] = v
         sub = self._sub(fn, env, strict=(True if not gen else self.strict))
         if gen:
             sub.in_loop = self.in_loop
+        sub.param_objs = {p_: x for p_, x in env.items() if p_ in own and "." not in p_ and isinstance(x, F.Rat) and not x.is_const()}
         self.trace.append(("enter", node, fn))
         sub.run(fn.body)
         self._merge(sub, keep_loop_flags=gen)
@@ -1566,6 +1796,14 @@ class GenEval(AutoEvaluator):
         for k, v in sub.env.items():
             if k.startswith(HEAP):
                 self.env[k] = v
+            elif "." in k and k not in own and not (method and k.startswith("self.")) and self.env.get(k) is not v:
+                root = k.split(".")[0].split("[")[0]
+                if root not in callee_names:
+                    self.env[k] = v                      # an attribute of a named object stored by the helper
+        for k in shared:
+            if k not in sub.env:
+                self.env.pop(k, None)                    # ... or deleted by it
+        self._inplace_back(sub)
         if gen and self._adopt_loop(sub):
             return NONE
         return self._result(sub)
@@ -1605,6 +1843,7 @@ class GenEval(AutoEvaluator):
         sub.rel = clo.ev.rel
         if gen:
             sub.in_loop = self.in_loop
+        sub.param_objs = {p_: x for p_, x in bound.items() if isinstance(x, F.Rat) and not x.is_const()}
         self.trace.append(("enter_closure", node, fn))
         if body is not None:
             sub.returns.append((sub.ev(body), fn))
@@ -1620,6 +1859,7 @@ class GenEval(AutoEvaluator):
                     clo.ev.env[k] = v
                     if k.startswith(HEAP):
                         self.env[k] = v
+        self._inplace_back(sub)
         if gen and self._adopt_loop(sub):
             return NONE
         return self._result(sub)
@@ -1738,9 +1978,22 @@ class GenEval(AutoEvaluator):
             if isinstance(st, ast.AugAssign) and isinstance(st.target, ast.Name):
                 cur = self.env.get(st.target.id)
                 if isinstance(cur, F.Rat) and not cur.is_const():
-                    # `frc = state[0]; frc += x` updates an array inside `state` in place but leaves a number there alone: what `state[0]` holds
-                    # afterwards is not known to the engine (until `state` is rebuilt): reading it is an analysis error, never a verdict
-                    self._poison_aliases(cur, st.target.id, Unknown(f"`{ast.unparse(st)[:50]}` may have updated this object in place through another name"))
+                    # `frc = state[0]; frc += x` (or `x += y` on an argument inside a helper) updates an array in place - every other name
+                    # of the same object sees the new content - but rebinds the one name when the object is a number.  Where the value is
+                    # provably an array the aliases follow; otherwise what they hold afterwards is not known to the engine: reading it is an
+                    # analysis error, never a verdict
+                    vt = self._view_triple(cur)
+                    Evaluator.stmt(self, st)
+                    new = self.env.get(st.target.id)
+                    if vt is not None:
+                        self._store_view(vt, new, cur, st, f"{st.target.id} (a view of {ast.unparse(st.target)})")
+                        self._update_object(cur, new)
+                    elif self.is_array(cur) is True and isinstance(new, F.Rat):
+                        self._update_object(cur, new)
+                    else:
+                        self._update_object(cur, Unknown(f"`{ast.unparse(st)[:50]}` may have updated this object in place through another name"))
+                    self.trace.append(("stmt", st))
+                    return
             Evaluator.stmt(self, st)
             self.trace.append(("stmt", st))
             return
@@ -1756,6 +2009,39 @@ class GenEval(AutoEvaluator):
             return
         if t is not True or st.orelse:
             raise Unsupported(f"generator loop with the test `{ast.unparse(st.test)}`")
+        self._gen_loop(st)
+
+    def _endless(self, node):
+        """the value a `for` target gets in every iteration when the iterable never ends (`itertools.count()`, `itertools.repeat(x)`,
+        `iter(int, 1)`), else None"""
+        if not isinstance(node, ast.Call) or node.keywords and not all(k.arg in ("start", "step", "object") for k in node.keywords):
+            return None
+        name = self._lib_name(self._callee_name(node))
+        if name == "itertools.count" and len(node.args) <= 2:
+            return Unknown("the counter of an endless loop")
+        if name == "itertools.repeat" and len(node.args) + len(node.keywords) == 1:
+            return self.ev(node.args[0] if node.args else node.keywords[0].value)
+        if name == "iter" and len(node.args) == 2 and not node.keywords and dotted(node.args[0]) in ("int", "float", "bool", "str", "list", "tuple", "dict"):
+            v = self.ev(node.args[1])
+            if isinstance(v, F.Rat) and not is_unknown(v) and v.is_const() and v.const_value() != 0:
+                return Unknown("the item of an endless iterator")       # int() is 0, never the sentinel
+        return None
+
+    def _lib_name(self, name):
+        """`count` imported by `from itertools import count` -> 'itertools.count'"""
+        if name is None or "." in name:
+            return name
+        m = getattr(self.fn, "_vmod", None)
+        if m is not None and name not in self.env and name not in self.locals_:
+            for st in m.tree.body:
+                if isinstance(st, ast.ImportFrom) and st.level == 0 and st.module:
+                    for al in st.names:
+                        if (al.asname or al.name) == name:
+                            return f"{st.module}.{al.name}"
+        return name
+
+    def _gen_loop(self, st, item=None):
+        """run the receiving loop `st` (a `while <true>` or a `for` over an endless iterable whose target gets `item`) for one iteration"""
         if self.loop is not None:
             raise Unsupported("nested generator loops")
         self.loop = st
@@ -1775,23 +2061,93 @@ class GenEval(AutoEvaluator):
                 self.env[k] = self._carry(k, self.env[k], True)
         self.heap_written.clear()
         self.in_loop = True
+        self.iter_stores = []
         self.trace.append(("loop", st))
+        if isinstance(st, ast.For):
+            self._assign(st.target, item, st)
         self.run(st.body)
         self.done = True          # the loop never ends: nothing after it is reachable
 
-    def _poison_aliases(self, v, name, unk):
+    # ---- objects updated in place (an array reached through several names, or through an argument of a helper)
+    param_objs = None       # {parameter: the caller's object it was bound to} of a followed helper (None: not a helper frame)
+    foreign = None          # [[caller's object, what it holds now]] for the objects of param_objs that were updated in place
+
+    def _update_object(self, obj, new):
+        """the object `obj` (identity) now holds `new`: every name, tuple item and slot of this frame that is the same object follows, and
+        so does the caller's object when `obj` came in as an argument"""
         def repl(x):
             if isinstance(x, tuple):
-                y = tuple(unk if e is v else repl(e) for e in x)
+                y = tuple(new if e is obj else repl(e) for e in x)
                 return y if any(a is not b for a, b in zip(x, y)) else x
             return x
         for k, x in list(self.env.items()):
-            if k == name:
-                continue
-            if k.startswith(HEAP) and x is v:
-                self.env[k] = unk
+            if x is obj:
+                self.env[k] = new
             elif isinstance(x, tuple):
                 self.env[k] = repl(x)
+        if self.param_objs is not None:
+            if self.foreign is None:
+                self.foreign = []
+            for rec in self.foreign:
+                if rec[1] is obj:
+                    rec[1] = new
+                    return
+            if any(x is obj for x in self.param_objs.values()):
+                self.foreign.append([obj, new])
+
+    def _inplace_back(self, sub):
+        """objects of this frame a followed helper updated in place through its parameters"""
+        for orig, new in (sub.foreign or []):
+            if new is not orig:
+                self._update_object(orig, new)
+
+    def is_array(self, v, depth=0):
+        """True when the value is provably a numpy array (so that `x += y` updates the object in place): every term is linear in exactly one
+        column / partition of a time history, of the sent force, or of a carried value that is itself such an array; None: not known"""
+        if not isinstance(v, F.Rat) or is_unknown(v) or depth > 4:
+            return None
+        try:
+            if not v.d.is_const() or v.n.is_zero():
+                return None
+            for mono in v.n.t:
+                n = 0
+                for a, e in mono:
+                    k = self._array_atom(a, depth)
+                    if k is None:
+                        return None
+                    if k:
+                        n += e
+                if n != 1:
+                    return None
+        except Exception:  # noqa
+            return None
+        return True
+
+    def _array_atom(self, a, depth):
+        """1: the atom is a vector of the solution / force history; 0: a coefficient (anything that maps vectors to vectors); None: not known"""
+        d = F.atom_desc(a)
+        if d[0] == "s":
+            nm = d[1]
+            if nm == "F1all" or nm.startswith("@"):
+                return 1
+            if nm.startswith("carry:"):
+                init = self.facts.carry_inits.get(nm[6:])
+                if init is not None and self.is_array(init, depth + 1) is True:
+                    self.facts.assumed_arrays.add(nm[6:])
+                    return 1
+                return None
+            if nm in ("stale_cache",) or nm.startswith(HEAP):
+                return None
+            return 0
+        if d[0] == "fn":
+            if d[1] == "ref":
+                args = [F.Rat(F._poly_from_key(k[1]), F._poly_from_key(k[2])) if isinstance(k, tuple) and k and k[0] == "rat" else None for k in d[2]]
+                if len(args) == 3 and args[1] is not None and (is_all(args[1]) or symname(args[1]) is not None) and not args[1].is_const():
+                    return 1            # rows: a partition (or all rows) of an array
+                return None
+            if d[1] == "rowsel":
+                return 0
+        return None
 
     def _carry(self, slot, init, bound):
         """the value a carried slot starts the iteration with: what an earlier send left there.  A tuple is carried component by component."""
@@ -1800,9 +2156,15 @@ class GenEval(AutoEvaluator):
         self.carried.append(slot)
         if bound:
             self.carry_init[slot] = init
+            if isinstance(init, F.Rat):
+                self.facts.carry_inits[slot] = init
         return self.carry_over.get(slot, F.sym("carry:" + slot))
 
     def _for(self, st):
+        if _has_yield(st) and not st.orelse:
+            item = self._endless(st.iter)
+            if item is not None:
+                return self._gen_loop(st, item)
         it = self.ev(st.iter)
         if isinstance(it, F.Rat) and self.heap.get(symname(it)) == "dict":
             it = self.dict_view(symname(it))
@@ -1882,6 +2244,17 @@ class GenEval(AutoEvaluator):
                 lst[ck] = v
                 self.env[d] = tuple(lst)
                 return
+            if isinstance(bv, F.Rat) and not is_unknown(bv) and not bv.is_const() and symname(bv) not in self.fresh \
+                    and any(s_.startswith("carry:") for s_ in free_syms(bv)) and not (self.tracked is not None and self._is_view(bv)):
+                # a store into an array an earlier send left behind (`cache[:] = ...`, `cache[...] += ...`): the object is updated in place
+                try:
+                    whole = all(is_all(c) or symname(c) == "Ellipsis" for c in self._comps(target.slice) if c is not _NEWAXIS)
+                except Unsupported:
+                    whole = False
+                if whole and isinstance(v, F.Rat):
+                    self._update_object(bv, v)
+                else:
+                    self._update_object(bv, Unknown(f"`{ast.unparse(target)[:50]} = ...` stores into part of a value an earlier send left behind"))
             ref = self.target_ref(target)
             cur = None
             if aug:
@@ -1890,6 +2263,8 @@ class GenEval(AutoEvaluator):
                 ld.ctx = ast.Load()
                 cur = self.ev(ld)
             self.seq += 1
+            if self.iter_stores is not None:
+                self.iter_stores.append((ref[0], ref[1], ref[2], v) if ref is not None else (bv if isinstance(bv, F.Rat) else None, None, None, v))
             if ref is None:
                 self.gcells.append(dict(root=None, rows=None, col=None, value=v, cur=cur, node=st, in_loop=self.in_loop, seq=self.seq,
                                         text=ast.unparse(target)))
